@@ -8,7 +8,7 @@ import re
 from ..cfg import build_cfg, calls_in, node_calls
 from ..core import Ctx, property_info, rule, share
 from ..model import AnalysisError, FuncInfo, const_str, walk_no_nested
-from ..q import A, asrc, enum_members, is_self_attr, kwarg, stores, unparse
+from ..q import Dispatch, dict_literals, A, asrc, enum_members, is_self_attr, kwarg, stores, unparse
 from .c12 import renumbering_is_last
 
 FIL = "xsdata.formats.dataclass.filters:Filters"
@@ -32,14 +32,25 @@ VALIDATION_ONLY = {"min_occurs", "max_occurs", "min_exclusive", "min_inclusive",
                    "length", "white_space", "pattern", "explicit_timezone"}
 
 
+def _const_key_reads(fn: ast.AST) -> set[str]:
+    """Constant string keys read from a plain local / parameter mapping: x.get("k"), x["k"] (load), x.pop("k")."""
+    out: set[str] = set()
+    for c in calls_in(fn):
+        if isinstance(c.func, ast.Attribute) and c.func.attr in ("get", "pop") and isinstance(c.func.value, ast.Name) and c.args and isinstance(c.args[0], ast.Constant) and isinstance(c.args[0].value, str):
+            out.add(c.args[0].value)
+    for n in walk_no_nested(fn):
+        if isinstance(n, ast.Subscript) and isinstance(n.value, ast.Name) and isinstance(n.slice, ast.Constant) and isinstance(n.slice.value, str) and isinstance(n.ctx, ast.Load):
+            out.add(n.slice.value)
+    return out
+
+
 def _runtime_reads(ctx: Ctx) -> tuple[set[str], set[str]]:
     b = ctx.repo.func(f"{BLD}.build")
-    reads = {c.args[0].value for c in calls_in(b.node) if isinstance(c.func, ast.Attribute) and c.func.attr == "get" and unparse(c.func.value) == "metadata" and c.args and isinstance(c.args[0], ast.Constant)}
+    reads = _const_key_reads(b.node)
     bc = ctx.repo.func(f"{BLD}.build_choices")
-    creads = {c.args[0].value for c in calls_in(bc.node) if isinstance(c.func, ast.Attribute) and c.func.attr == "get" and unparse(c.func.value) == "choice" and c.args and isinstance(c.args[0], ast.Constant)}
-    creads |= {n.slice.value for n in walk_no_nested(bc.node) if isinstance(n, ast.Subscript) and unparse(n.value) == "metadata" and isinstance(n.slice, ast.Constant) and isinstance(n.ctx, ast.Load)}
+    creads = _const_key_reads(bc.node)
     dc = ctx.repo.func("xsdata.formats.dataclass.compat:Dataclasses.default_choice_value")
-    creads |= {c.args[0].value for c in calls_in(dc.node) if isinstance(c.func, ast.Attribute) and c.func.attr == "get" and c.args and isinstance(c.args[0], ast.Constant)}
+    creads |= _const_key_reads(dc.node)
     return reads, creads
 
 
@@ -66,13 +77,13 @@ def metadata_vocabulary(ctx: Ctx) -> None:
         for n in walk_no_nested(fi.node):
             if isinstance(n, ast.Dict):
                 lit |= {k.value for k in n.keys if isinstance(k, ast.Constant)}
-            if isinstance(n, ast.Subscript) and unparse(n.value) == "metadata" and isinstance(n.slice, ast.Constant) and isinstance(n.ctx, ast.Store):
+            if isinstance(n, ast.Subscript) and isinstance(n.value, ast.Name) and isinstance(n.slice, ast.Constant) and isinstance(n.ctx, ast.Store):
                 lit.add(n.slice.value)
     clit = set()
     for n in walk_no_nested(fc.node):
         if isinstance(n, ast.Dict):
             clit |= {k.value for k in n.keys if isinstance(k, ast.Constant)}
-        if isinstance(n, ast.Subscript) and unparse(n.value) == "metadata" and isinstance(n.ctx, ast.Store):
+        if isinstance(n, ast.Subscript) and isinstance(n.value, ast.Name) and isinstance(n.ctx, ast.Store):
             clit.add(n.slice.value if isinstance(n.slice, ast.Constant) else "default_factory" if "FACTORY_KEY" in unparse(n.slice) else unparse(n.slice))
     rfields = set(_restriction_fields(ctx)) - _asdict_skips(ctx) | {"required", "min_occurs", "max_occurs"}
     emitted = lit | rfields
@@ -117,7 +128,7 @@ def restriction_vocabulary(ctx: Ctx) -> None:
                 keys.add(node.slice.value)
             if isinstance(node, ast.Call) and isinstance(node.func, ast.Attribute) and node.func.attr == "update":
                 keys |= {k.arg for k in node.keywords if k.arg}
-            if isinstance(node, ast.Assign) and isinstance(node.value, ast.Tuple) and all(isinstance(e, ast.Constant) and isinstance(e.value, str) for e in node.value.elts) and unparse(node.targets[0]) == "keys":
+            if isinstance(node, ast.Assign) and isinstance(node.value, ast.Tuple) and all(isinstance(e, ast.Constant) and isinstance(e.value, str) for e in node.value.elts) and isinstance(node.targets[0], ast.Name):
                 keys |= {e.value for e in node.value.elts}
         for k in sorted(keys):
             ctx.ob(f"{fi.qual.split(':')[1]}: restriction key `{k}` is a Restrictions field", k in fields_, at=fi, construct=f"restriction {k}",
@@ -131,8 +142,12 @@ def restriction_vocabulary(ctx: Ctx) -> None:
     ctx.ob("Restrictions.from_element = cls(**element.get_restrictions())", A("returncls(**_.get_restrictions())") in asrc(fe), at=fe, construct="from_element", msg="restriction construction changed")
     # occurrence tables of attributes (use) equal XSD
     at = ctx.repo.func("xsdata.models.xsd:Attribute.get_restrictions")
-    a = asrc(at)
-    ok = A("ifself.use==UseType.REQUIRED:;_={'min_occurs':1,'max_occurs':1}") in a and A("elifself.use==UseType.PROHIBITED:;_={'max_occurs':0,'min_occurs':0}") in a and A("else:;_={'max_occurs':1,'min_occurs':0}") in a
+    d = Dispatch(at.node, is_subject=lambda e: unparse(e) == "self.use")
+    table = {}
+    for key in ("UseType.REQUIRED", "UseType.PROHIBITED", None):
+        occ = [x for x in dict_literals(d.under(key)) if "min_occurs" in x]
+        table[key] = (occ[0]["min_occurs"], occ[0]["max_occurs"]) if len(occ) == 1 and "max_occurs" in occ[0] else None
+    ok = table == {"UseType.REQUIRED": ("1", "1"), "UseType.PROHIBITED": ("0", "0"), None: ("0", "1")}
     ctx.ob("xs:attribute use -> occurrences: required (1,1), prohibited (0,0), optional (0,1)", ok, at=at, construct="attribute use table", msg="attribute occurrence table changed")
 
 
@@ -224,8 +239,9 @@ def attribute_namespace_agreement(ctx: Ctx) -> None:
     ctx.ob("runtime: only ELEMENT and WILDCARD fields inherit the parent namespace", inherit == {"ELEMENT", "WILDCARD"}, at=rn, construct="runtime inheritance", msg=f"inheriting kinds {sorted(inherit)}")
     fm = ctx.repo.func(f"{FIL}.field_metadata")
     g = build_cfg(fm.node)
-    st = [g.node_of(s) for s, tgt, v in stores(fm.node) if isinstance(tgt, ast.Name) and tgt.id == "namespace" and v is not None and unparse(v) == "attr.namespace"]
-    t = [x for x in g.nodes if x.kind == "test" and unparse(x.ast) == "attr.is_attribute"]
+    nsvar = {x["namespace"] for x in dict_literals(g.stmts()) if "namespace" in x and "type" in x}
+    st = [g.node_of(s) for s, tgt, v in stores(fm.node) if isinstance(tgt, ast.Name) and tgt.id in nsvar and v is not None and unparse(v) == "attr.namespace"]
+    t = [x for x in g.nodes if x.kind == "test" and unparse(x.ast) == "attr.is_attribute"]  # `attr` is a parameter
     ok = False
     if st and t:
         for tt in t:
